@@ -250,57 +250,144 @@ def int_test(test, k):
 
 
 def generic_pow(idx, rep, rule, te):
+    """the base rule of pow, judged exit by exit: every return is classified by the value it returns (identity / k-fold product / inverse
+    / the general matrix function) and the conditions under which it is reached (if / elif / early returns / match cases, any layout)
+    must entail what the shortcut needs: alpha is close to the integer k, and k == 0, k >= 1 or k == -1 respectively"""
     fi = rule.func
     a, al, algp = rule.params[0][0], rule.params[1][0], rule.params[2][0]
     src = fi.node
     loc = rule.loc
-    # the final general case: apply_unary(lambda x: x ** alpha, A, alg)
-    final = [r for r in df.returns(src) if isinstance(r.value, ast.Call) and ast.unparse(r.value.func) == "apply_unary"]
-    ok = bool(final) and isinstance(final[-1].value.args[0], ast.Lambda) and al in df.names_in(final[-1].value.args[0].body) and isinstance(final[-1].value.args[0].body, ast.BinOp) \
-        and isinstance(final[-1].value.args[0].body.op, ast.Pow)
-    rep.decide(ok, "pow-shortcut", "pow:general", f"general case applies x -> x ** {al}" if ok else "general case does not raise to the given exponent", detail="" if ok else "exponent", locs=[loc])
-    # k == 0 -> identity ; 0 < k < 10 -> k-fold product ; k == -1 -> inverse with the algorithm map
-    # k is whatever local receives int(round(alpha)) -- found structurally, not by name
-    kname = None
+    asg = df.assignments(src)
+
+    def is_kdef(v):
+        # int(round(alpha)) in any spelling: int(...) of an expression that reads alpha
+        return isinstance(v, ast.Call) and isinstance(v.func, ast.Name) and v.func.id == "int" and al in df.names_in(v)
+
+    knames = set()
     for n in df.body_nodes(src):
         tgt = val = None
         if isinstance(n, ast.NamedExpr):
             tgt, val = n.target, n.value
         elif isinstance(n, ast.Assign) and len(n.targets) == 1:
             tgt, val = n.targets[0], n.value
-        if isinstance(tgt, ast.Name) and isinstance(val, ast.Call) and isinstance(val.func, ast.Name) and val.func.id == "int" and al in df.names_in(val):
-            kname = tgt.id
-    for n in df.body_nodes(src):
-        if kname is None or not isinstance(n, ast.If) or not isinstance(n.test, (ast.Compare, ast.BoolOp)):
+        if isinstance(tgt, ast.Name) and is_kdef(val):
+            knames.add(tgt.id)
+
+    def is_k(e):
+        if isinstance(e, ast.NamedExpr):
+            return is_kdef(e.value) or is_k(e.value)
+        return (isinstance(e, ast.Name) and e.id in knames) or is_kdef(e)
+
+    def is_close_test(t):
+        return isinstance(t, ast.Call) and ast.unparse(t.func).endswith("isclose") and len(t.args) >= 2 and \
+            ((al in df.names_in(t.args[0]) and is_k(t.args[1])) or (al in df.names_in(t.args[1]) and is_k(t.args[0])))
+
+    def k_values(conds):
+        """the integers in a window that satisfy every comparison of k with constants among the conditions"""
+        allowed = set(range(-40, 41))
+        for t, pol in conds:
+            t = df.resolve_value(src, t) if isinstance(t, ast.Name) else t
+            if not isinstance(t, ast.Compare):
+                continue
+            operands = [t.left] + list(t.comparators)
+            if not any(is_k(o) for o in operands) or not all(is_k(o) or (isinstance(o, ast.Constant) and isinstance(o.value, int)) or
+                                                               (isinstance(o, ast.UnaryOp) and isinstance(o.op, ast.USub) and isinstance(o.operand, ast.Constant)) for o in operands):
+                continue
+            code = compile(ast.Expression(body=ast.fix_missing_locations(ast.parse(ast.unparse(ast.Compare(
+                left=ast.Name(id="k", ctx=ast.Load()) if is_k(t.left) else t.left, ops=t.ops,
+                comparators=[ast.Name(id="k", ctx=ast.Load()) if is_k(c) else c for c in t.comparators])), mode="eval").body)), "<k>", "eval")
+            allowed = {k for k in allowed if bool(eval(code, {"__builtins__": {}}, {"k": k})) == pol}
+        return allowed
+
+    seen = {"general": 0, "identity": 0, "product": 0, "inverse": 0}
+    for r in [r for r in df.returns(src) if r.value is not None]:
+        rv = r.value
+        rloc = [idx.loc(fi.module, r)]
+        conds = []
+        work = list(df.branch_conditions(r, src))
+        while work:
+            t, pol = work.pop()
+            t2 = df.resolve_value(src, t) if isinstance(t, ast.Name) else t
+            t2, pol = df.normalise_test(t2, pol)
+            while isinstance(t2, ast.Call) and isinstance(t2.func, ast.Name) and t2.func.id == "bool" and len(t2.args) == 1:
+                t2, pol = df.normalise_test(t2.args[0], pol)
+            if isinstance(t2, ast.BoolOp) and ((isinstance(t2.op, ast.And) and pol) or (isinstance(t2.op, ast.Or) and not pol)):
+                work += [(v, pol) for v in t2.values]  # a true conjunction / a false disjunction: every part holds with that polarity
+                continue
+            conds.append((t2, pol))
+        close = any(pol and is_close_test(t) for t, pol in conds)
+        ks = k_values(conds)
+        # ---- classify the exit by the value it returns
+        if isinstance(rv, ast.Call) and ast.unparse(rv.func) == "apply_unary":
+            seen["general"] += 1
+            lam = rv.args[0] if rv.args else None
+            ok = isinstance(lam, ast.Lambda) and isinstance(lam.body, ast.BinOp) and isinstance(lam.body.op, ast.Pow) and al in df.names_in(lam.body.right) and \
+                [x.arg for x in lam.args.args] == [n for n in df.names_in(lam.body.left)]
+            rep.decide(ok, "pow-shortcut", "pow:general", f"general case applies x -> x ** {al}" if ok else "general case does not raise to the given exponent", detail="" if ok else "exponent", locs=rloc)
             continue
-        test = int_test(n.test, kname)
-        rets = [df.effective_return(x) for st in n.body for x in ast.walk(st) if isinstance(x, ast.Return)]
-        if test == "k==0" and rets:
-            t = norm(te.eval_in(fi, rets[0].value))
-            rep.decide(t == I, "pow-shortcut", "pow:k=0", f"A^0 returns {show(t)}", detail="" if t == I else "identity", locs=[idx.loc(fi.module, n)])
-        elif test.startswith("k>0") and rets:
-            rv = rets[0].value
-            ok = isinstance(rv, ast.Call) and len(rv.args) == 1 and ast.unparse(rv.args[0]).replace(" ", "") == f"[{a}]*{kname}"
-            helper = idx.resolve_expr(fi.module, rv.func, fi) if isinstance(rv, ast.Call) else None
+        t = norm(te.eval_in(fi, rv))
+        helper = idx.resolve_expr(fi.module, rv.func, fi) if isinstance(rv, ast.Call) else None
+        is_product = isinstance(rv, ast.Call) and len(rv.args) == 1 and isinstance(rv.args[0], ast.BinOp) and isinstance(rv.args[0].op, ast.Mult) and \
+            any(isinstance(x, ast.List) and len(x.elts) == 1 and ast.unparse(x.elts[0]) == a for x in (rv.args[0].left, rv.args[0].right))
+        # an exit reached exactly for one integer exponent is that exponent's shortcut whatever it returns
+        if close and ks == {0} and t != I:
+            seen["identity"] += 1
+            rep.refuted("pow-shortcut", "pow:k=0", f"A^0 returns {show(t)}", detail="identity", locs=rloc)
+            continue
+        if close and ks == {-1} and t != INV(sym(a)):
+            seen["inverse"] += 1
+            rep.refuted("pow-shortcut", "pow:k=-1", f"A^-1 returns {show(t)}", detail="inverse", locs=rloc)
+            continue
+        if close and ks and min(ks) >= 1 and len(ks) < 41 and not is_product and t != I and t != INV(sym(a)):
+            seen["product"] += 1
+            rep.refuted("pow-shortcut", "pow:small-integer", f"integer shortcut returns `{ast.unparse(rv)[:50]}`; required the k-fold product of {a}", detail="product", locs=rloc)
+            continue
+        if t == I:
+            kind_, need, label = "identity", {0}, "pow:k=0"
+        elif is_product:
+            kind_, need, label = "product", None, "pow:small-integer"
+        elif t == INV(sym(a)):
+            kind_, need, label = "inverse", {-1}, "pow:k=-1"
+        else:
+            rep.undecided("pow-shortcut", f"pow:exit@{ast.unparse(rv)[:30]}", f"returns {show(t)}: not one of the tabulated exits", locs=rloc)
+            continue
+        seen[kind_] += 1
+        if not close:
+            rep.refuted("pow-shortcut", label, f"`return {ast.unparse(rv)[:50]}` is reached without the test that {al} is close to the integer it was rounded to: "
+                        f"a non-integer exponent (2.5, 0.75) takes the integer shortcut", detail="not-integer", locs=rloc)
+            continue
+        if kind_ == "product":
+            count = rv.args[0].right if isinstance(rv.args[0].left, ast.List) else rv.args[0].left
+            count = df.resolve_value(src, count)
+            ok = is_k(count) and bool(ks) and min(ks) >= 1
             if ok and helper is not None and helper.kind == "funcs":
                 body = ast.unparse(helper.val[-1].node)
                 ok = "reduce" in body and "@" in body
-            rep.decide(ok, "pow-shortcut", "pow:small-integer", "A^k for 0 < k < 10 is the k-fold product of A" if ok else f"integer shortcut returns `{ast.unparse(rv)[:50]}`", detail="" if ok else "product",
-                       locs=[idx.loc(fi.module, n)])
-        elif test == "k==-1":
-            m = next((x for st in n.body for x in ast.walk(st) if isinstance(x, ast.Match)), None)
-            mapping = {}
-            if m is not None:
-                for case in m.cases:
-                    if isinstance(case.pattern, ast.MatchClass):
-                        cls = ast.unparse(case.pattern.cls)
-                        made = [ast.unparse(c.func) for st in case.body for c in ast.walk(st) if isinstance(c, ast.Call)]
-                        if made:
-                            mapping[cls] = made[0]
-            bad = {k: v for k, v in mapping.items() if ALG_MAP.get(k) != v}
-            okm = not bad and set(mapping) == set(ALG_MAP)
-            rep.decide(okm if mapping else None, "pow-shortcut", "pow:k=-1:algorithm-map", f"matrix-function algorithms map to inverse algorithms as {mapping}" + ("" if okm else f"; expected {ALG_MAP}"),
-                       detail="" if okm else "map", locs=[idx.loc(fi.module, n)])
-            if rets:
-                t = norm(te.eval_in(fi, rets[-1].value))
-                rep.decide(t == INV(sym(a)), "pow-shortcut", "pow:k=-1", f"A^-1 returns {show(t)}", detail="" if t == INV(sym(a)) else "inverse", locs=[idx.loc(fi.module, n)])
+            rep.decide(ok, "pow-shortcut", label, f"A^k for k in [{min(ks) if ks else '?'}, {max(ks) if ks else '?'}] is the k-fold product of A" if ok else
+                       f"integer shortcut returns `{ast.unparse(rv)[:50]}` for k in {sorted(ks)[:4]}...", detail="" if ok else "product", locs=rloc)
+        elif kind_ == "identity":
+            ok = ks == need
+            rep.decide(ok, "pow-shortcut", label, "A^0 returns I" if ok else f"the identity is returned for k in {sorted(ks)[:6]}", detail="" if ok else "identity", locs=rloc)
+        else:
+            ok = ks == need
+            rep.decide(ok, "pow-shortcut", label, "A^-1 returns inv(A)" if ok else f"the inverse is returned for k in {sorted(ks)[:6]}", detail="" if ok else "inverse", locs=rloc)
+    for kind_, label in (("identity", "pow:k=0"), ("product", "pow:small-integer"), ("inverse", "pow:k=-1"), ("general", "pow:general")):
+        if not seen[kind_] and kind_ == "general":
+            rep.refuted("pow-shortcut", label, "no exit applies the general matrix function x -> x ** alpha", detail="exponent", locs=[loc])
+    # ---- the algorithm handed to inv on the k = -1 exit: matrix-function algorithms map to the matching linear solvers (the match may
+    # live in the rule or in a helper it calls)
+    holders = [fi] + [r_.val[-1] for c in df.calls(src) for r_ in [idx.resolve_expr(fi.module, c.func, fi)] if r_ is not None and r_.kind == "funcs" and getattr(r_.val[-1], "rule", None) is None
+                      and r_.val[-1].module is fi.module]
+    mapping = {}
+    for h in holders:
+        for m in [x for x in ast.walk(h.node) if isinstance(x, ast.Match)]:
+            for case in m.cases:
+                if isinstance(case.pattern, ast.MatchClass):
+                    made = [ast.unparse(c.func) for st in case.body for c in ast.walk(st) if isinstance(c, ast.Call)]
+                    if made:
+                        mapping[ast.unparse(case.pattern.cls)] = made[0]
+    if seen["inverse"]:
+        bad = {k: v for k, v in mapping.items() if ALG_MAP.get(k) != v}
+        okm = not bad and set(mapping) == set(ALG_MAP)
+        rep.decide(okm if mapping else None, "pow-shortcut", "pow:k=-1:algorithm-map", f"matrix-function algorithms map to inverse algorithms as {mapping}" + ("" if okm else f"; expected {ALG_MAP}"),
+                   detail="" if okm else "map", locs=[loc])
